@@ -1,6 +1,6 @@
 (* Corr/C25.v — what a C25 correspondence case is and when model and
    implementation agree on it. *)
-From NDB Require Export Base.Bytes Codec.Utf8 Codec.PropValue Corr.Common.
+From NDB Require Export Base.Bytes Codec.Utf8 Codec.PropValue Codec.WalRecord Codec.WalLog Corr.Common.
 Open Scope N_scope.
 
 Definition derr_eqb (a b : derr) : bool :=
@@ -34,7 +34,23 @@ Inductive case :=
 | CDec (b : bytes) (impl : res pv) (impl_consumed : option N) (impl_peak : N) (elem_size : N)
        (impl_depth : option N)
 (* bytes b; core::str::from_utf8(b).is_ok() *)
-| CUtf8 (b : bytes) (impl_valid : bool).
+| CUtf8 (b : bytes) (impl_valid : bool)
+(* record r; the bytes Wal::append wrote for it (length, crc32fast checksum, encode_body) *)
+| CWalEnc (r : wrec) (impl_frame : bytes)
+(* a whole log file; Wal::replay_committed_from_path on it (under catch_unwind) *)
+| CWalReplay (file : bytes) (impl : (list tx) + lerr).
+
+Definition lerr_eqb (a b : lerr) : bool :=
+  match a, b with
+  | LTooLarge, LTooLarge | LProtocol, LProtocol | LPanic, LPanic => true
+  | _, _ => false                  (* LNoFuel never equals an implementation outcome *)
+  end.
+Definition replay_eqb (a b : (list tx) + lerr) : bool :=
+  match a, b with
+  | inl x, inl y => list_eqb tx_eqb x y
+  | inr x, inr y => lerr_eqb x y
+  | _, _ => false
+  end.
 
 Definition consumed_of (b : bytes) : option N :=
   match dec_top b with Ok (_, c) => Some c | _ => None end.
@@ -65,4 +81,6 @@ Definition ok (c : case) : bool :=
       | _, _ => true
       end
   | CUtf8 b valid => Bool.eqb (utf8_valid b) valid
+  | CWalEnc r f => wf_rec r && bytes_eqb (frame r) f
+  | CWalReplay file impl => replay_eqb (replay_file file) impl
   end.
